@@ -1502,6 +1502,9 @@ func ParseByteRange(byteRange []byte, contentLength int) (startPos, endPos int, 
 		if contentLength <= 0 {
 			return 0, 0, fmt.Errorf("byte range %q is invalid for empty content", byteRange)
 		}
+		if v == 0 {
+			return 0, 0, fmt.Errorf("zero-length suffix byte range %q cannot be satisfied", byteRange)
+		}
 		startPos := max(contentLength-v, 0)
 		return startPos, contentLength - 1, nil
 	}
